@@ -9,7 +9,7 @@ package cluster
 // stored under its own ID.
 //@ pred msInv(s) := s != nil && s.members != nil && forallS("Str", id, has(s.members, id) ==> s.members[id] != nil && s.members[id].ID == id)
 
-//@ func (*MemberSet).GetByHost(host)
+//@ func (s *MemberSet).GetByHost(host)
 //@   props C20
 //@   requires msInv(s)
 //@   modifies
@@ -20,14 +20,14 @@ package cluster
 //@     invariant theMember != nil ==> has(s.members, theMember.ID) && s.members[theMember.ID] == theMember && theMember.Host == host
 //@     invariant theMember == nil ==> forallS("Str", id, has(s.members, id) && visited1[id] ==> s.members[id].Host != host)
 
-//@ func (*MemberSet).Contains(member)
+//@ func (s *MemberSet).Contains(member)
 //@   props C20
 //@   requires s != nil
 //@   requires[C20.contains.nonnil] member != nil
 //@   modifies
 //@   ensures[C20.contains.def] result == has(s.members, member.ID)
 
-//@ func (*MemberSet).Remove(member)
+//@ func (s *MemberSet).Remove(member)
 //@   props C20
 //@   requires s != nil
 //@   requires[C20.remove.nonnil] member != nil
@@ -35,7 +35,7 @@ package cluster
 //@   ensures[C20.remove.only] forallS("Str", id, has(s.members, id) == (old(has(s.members, id)) && id != member.ID))
 //@   ensures[C20.remove.kept] forallS("Str", id, has(s.members, id) ==> s.members[id] == old(s.members[id]))
 
-//@ func (*MemberSet).Add(member)
+//@ func (s *MemberSet).Add(member)
 //@   props C20
 //@   requires s != nil && s.members != nil
 //@   requires[C20.add.nonnil] member != nil
@@ -48,7 +48,7 @@ package cluster
 //@ pred complete(sl, set) := forallS("Str", id, has(set.members, id) ==> exists(k, 0 <= k && k < len(sl) && sl[k] == set.members[id]))
 //@ pred provInv(s) := s != nil && msInv(s.members) && s.cluster != nil && engInv(s.cluster.engine)
 
-//@ func (*Cluster).PID()
+//@ func (c *Cluster).PID()
 //@   props C20
 //@   requires c != nil
 //@   pure
@@ -56,7 +56,7 @@ package cluster
 
 // Telling the agent: one send of a *Members message listing every current
 // member to the agent's PID (nothing when the agent PID is not set yet).
-//@ func (*SelfManaged).sendMembersToAgent()
+//@ func (s *SelfManaged).sendMembersToAgent()
 //@   props C20
 //@   requires provInv(s)
 //@   nopanic[C20.agent.nopanic]
@@ -64,7 +64,7 @@ package cluster
 //@   ghost at call Send#1 before: assert[C20.agent.told-complete-list] arg0 == s.cluster.engine && arg1 == s.cluster.agentPID && istype(arg2, *Members) && arg2.(*Members) != nil && complete(arg2.(*Members).Members, s.members)
 //@   ensures[C20.agent.told-once] (s.cluster.agentPID == nil ==> loglen == entry(loglen)) && (s.cluster.agentPID != nil ==> loglen == entry(loglen) + 1 && addressedTo(log[entry(loglen)], s.cluster.agentPID)) && logPrefix(entry(loglen))
 
-//@ func (*SelfManaged).removeMember(member)
+//@ func (s *SelfManaged).removeMember(member)
 //@   props C20
 //@   requires provInv(s)
 //@   nopanic[C20.leave.nopanic]
@@ -75,7 +75,7 @@ package cluster
 //@   ensures[C20.leave.kept] forallS("Str", id, has(s.members.members, id) ==> s.members.members[id] == old(s.members.members[id]))
 //@   ensures[C20.leave.inv] msInv(s.members)
 
-//@ func (*SelfManaged).addMembers(members)
+//@ func (s *SelfManaged).addMembers(members)
 //@   props C20
 //@   requires provInv(s)
 //@   modifies mapof(s.members.members), log, loglen
@@ -95,7 +95,7 @@ package cluster
 // Slice: every member of the set, each exactly at one position. card/visited
 // count of the map iteration bound the index; pos is a ghost witness
 // (member ID -> position) for "every member occurs in the result".
-//@ func (*MemberSet).Slice()
+//@ func (s *MemberSet).Slice()
 //@   props C20 C18
 //@   requires msInv(s)
 //@   modifies
@@ -112,16 +112,16 @@ package cluster
 //@     modifies elements(members)
 
 
-//@ func (*Cluster).Member()
+//@ func (c *Cluster).Member()
 //@   trusted
 //@   modifies
 //@   ensures result != nil && fresh(result)
 
-//@ func (*SelfManaged).start(c)
+//@ func (s *SelfManaged).start(c)
 //@   trusted
 //@   modifies heap
 
-//@ func (*SelfManaged).handleMemberPing(c)
+//@ func (s *SelfManaged).handleMemberPing(c)
 //@   trusted
 //@   modifies heap
 
@@ -132,7 +132,7 @@ package cluster
 // The provider actor. Only the three membership cases are verified (the
 // precondition restricts the message to them); nothing is claimed about the
 // other cases (Started/Stopped/ping: discovery, pinger, shutdown).
-//@ func (*SelfManaged).Receive(c)
+//@ func (s *SelfManaged).Receive(c)
 //@   props C20
 //@   prune
 //@   requires provInv(s) && c != nil
@@ -184,7 +184,7 @@ package cluster
 //@     modifies mapof(m)
 
 // Except: the members of s whose ID does not occur in the argument, each once.
-//@ func (*MemberSet).Except(members)
+//@ func (s *MemberSet).Except(members)
 //@   props C18
 //@   requires msInv(s) && allNonNil(members)
 //@   modifies
@@ -215,13 +215,13 @@ package cluster
 //@ pred isJoinEvent(ev) := isev(ev, Broadcast) && istype(ev.Broadcast_msg, MemberJoinEvent)
 //@ pred isLeaveEvent(ev) := isev(ev, Broadcast) && istype(ev.Broadcast_msg, MemberLeaveEvent)
 
-//@ func (*Member).PID()
+//@ func (m *Member).PID()
 //@   props C19 C18
 //@   requires m != nil
 //@   modifies
 //@   ensures[C19.member.agent-pid] result != nil && fresh(result) && result.Address == m.Host && result.ID == "cluster/" + m.ID
 
-//@ func (*Agent).memberJoin(member)
+//@ func (a *Agent).memberJoin(member)
 //@   props C18 C19
 //@   requires agentInv(a) && member != nil
 //@   nopanic[C18.join.nopanic]
@@ -251,7 +251,7 @@ package cluster
 //@     invariant[C19.join.l2.count] len(actorInfos) == count1 && forall(k, 0 <= k && k < len(actorInfos) ==> actorInfos[k] != nil)
 //@     modifies elements(actorInfos)
 
-//@ func (*Agent).removeActivated(pid)
+//@ func (a *Agent).removeActivated(pid)
 //@   props C18 C19
 //@   requires a != nil && a.activated != nil && pid != nil
 //@   modifies mapof(a.activated)
@@ -261,7 +261,7 @@ package cluster
 // loop invariant speaks about that caller's state through the ghost locals MS
 // (the member set) and KM (the kinds map) set at rebuildKinds' entry, and the
 // witnesses kwm/kwj (for a kind: a visited member advertising it, and where).
-//@ func (*MemberSet).ForEach(fun)
+//@ func (s *MemberSet).ForEach(fun)
 //@   inline
 //@   loop 1
 //@     invariant[C18.kinds.loop.inv] msInv(MS) && KM != nil
@@ -281,7 +281,7 @@ package cluster
 
 // rebuildKinds: afterwards the kinds map holds exactly the kinds advertised
 // by the members of the current view.
-//@ func (*Agent).rebuildKinds()
+//@ func (a *Agent).rebuildKinds()
 //@   props C18
 //@   requires agentInv(a)
 //@   modifies mapof(a.kinds)
@@ -290,7 +290,7 @@ package cluster
 //@   ensures[C18.kinds.only-advertised-kinds] forallS("Str", k, has(a.kinds, k) ==> existsS("Str", id, has(a.members.members, id) && exists(j, 0 <= j && j < len(a.members.members[id].Kinds) && a.members.members[id].Kinds[j] == k)))
 //@   ensures[C18.kinds.inv] agentInv(a)
 
-//@ func (*Agent).memberLeave(member)
+//@ func (a *Agent).memberLeave(member)
 //@   props C18 C19
 //@   requires agentInv(a) && member != nil
 //@   nopanic[C18.leave.nopanic]
@@ -313,7 +313,7 @@ package cluster
 // (and for nothing else), memberLeave once for every view member whose ID is
 // not in the snapshot (and for nothing else); each of those publishes exactly
 // one MemberJoinEvent / MemberLeaveEvent (their own contracts).
-//@ func (*Agent).handleMembers(members)
+//@ func (a *Agent).handleMembers(members)
 //@   props C18
 //@   requires agentInv(a) && allNonNil(members)
 //@   nopanic[C18.members.nopanic]
@@ -354,7 +354,7 @@ package cluster
 // activation messages (C19) to their handlers, with the handler's argument
 // taken unchanged from the message. Started/Stopped/getKinds/getActive are not
 // part of this contract (the precondition excludes them).
-//@ func (*Agent).Receive(c)
+//@ func (a *Agent).Receive(c)
 //@   props C18 C19
 //@   prune
 //@   requires agentInv(a) && a.localKinds != nil && c != nil && engInv(c.engine)
@@ -389,12 +389,41 @@ package cluster
 //@ functype SelectMemberFunc(details)
 //@   pure
 
-//@ func (*Agent).bcast(msg)
+//@ func (a *Agent).bcast(msg)
 //@   trusted
 //@   modifies
 //@   emits Bcast(a, msg)
 
-//@ func (*Agent).addActivated(pid)
+// What one Bcast entry stands for is checked against bcast's body: every
+// member of the view is sent msg exactly once, to a PID naming that member's
+// agent (host, "cluster/"+id), and nothing else is sent. bat[id] = log
+// position of the send to member id, bsrc[k] = member whose send is at
+// position k (a bijection, as in eventStream.Receive); btp[k] = the PID used.
+//@ pred memberSendAt(e, m, msg, pid, k) := pid != nil && pid.Address == m.Host && pid.ID == "cluster/" + m.ID && sendEffect(e, pid, msg, nil, k, k + 1)
+
+//@ func (a *Agent).bcast!impl(msg)
+//@   props C19 C18
+//@   requires agentInv(a)
+//@   nopanic[C19.bcast.nopanic]
+//@   modifies log, loglen
+//@   ghost at entry: BA = a; BM = msg; lb = loglen; bat = arbitrary("(Array Str Int)"); bsrc = arbitrary("(Array Int Str)"); btp = arbitrary("(Array Int Ref)")
+//@   ghost at return#1: assert[C19.bcast.every-member-once] forallS("Str", id, has(a.members.members, id) ==> lb <= bat[id] && bat[id] < loglen && bsrc[bat[id]] == id && memberSendAt(a.cluster.engine, a.members.members[id], msg, typed(btp[bat[id]], "*actor.PID"), bat[id]))
+//@   ghost at return#1: assert[C19.bcast.nothing-else] lb == entry(loglen) && logPrefix(lb) && forall(k, lb <= k && k < loglen ==> has(a.members.members, bsrc[k]) && bat[bsrc[k]] == k)
+
+//@ func (s *MemberSet).ForEach(fun) in (*Agent).bcast
+//@   inline
+//@   loop 1
+//@     invariant[C19.bcast.inv.base] agentInv(BA) && lb == entry(loglen) && loglen >= lb && logPrefix(lb)
+//@     invariant[C19.bcast.inv.at] forallS("Str", id, visited1[id] && has(BA.members.members, id) ==> lb <= bat[id] && bat[id] < loglen && bsrc[bat[id]] == id && memberSendAt(BA.cluster.engine, BA.members.members[id], BM, typed(btp[bat[id]], "*actor.PID"), bat[id]))
+//@     invariant[C19.bcast.inv.src] forall(k, lb <= k && k < loglen ==> visited1[bsrc[k]] && has(BA.members.members, bsrc[k]) && bat[bsrc[k]] == k)
+//@     modifies log, loglen
+
+//@ func (*Agent).bcast$1(member)
+//@   inline
+//@   ghost at call PID#1: btp = store(btp, loglen, result)
+//@   ghost at call Send#1: bat = store(bat, key1, loglen - 1); bsrc = store(bsrc, loglen - 1, key1)
+
+//@ func (a *Agent).addActivated(pid)
 //@   props C19
 //@   requires a != nil && a.activated != nil && pid != nil
 //@   modifies mapof(a.activated)
@@ -402,13 +431,13 @@ package cluster
 //@        (old(has(a.activated, pid.ID)) ==> a.activated[pid.ID] == old(a.activated[pid.ID])) && (!old(has(a.activated, pid.ID)) ==> a.activated[pid.ID] == pid) &&
 //@        forallS("Str", id, id != pid.ID ==> a.activated[id] == old(a.activated[id]))
 
-//@ func (*Agent).hasKindLocal(name)
+//@ func (a *Agent).hasKindLocal(name)
 //@   props C19
 //@   requires a != nil
 //@   modifies
 //@   ensures[C19.haskindlocal] result == has(a.localKinds, name)
 
-//@ func (*Agent).handleActivation(msg)
+//@ func (a *Agent).handleActivation(msg)
 //@   props C19
 //@   requires agentInv(a) && msg != nil && msg.PID != nil
 //@   modifies mapof(a.activated), log, loglen
@@ -416,7 +445,7 @@ package cluster
 //@        forallS("Str", id, id != msg.PID.ID ==> has(a.activated, id) == old(has(a.activated, id)) && a.activated[id] == old(a.activated[id]))
 //@   ensures[C19.on-activation.event] loglen == entry(loglen) + 1 && log[entry(loglen)] == Broadcast(a.cluster.engine, ActivationEvent{PID: msg.PID})
 
-//@ func (*Agent).handleDeactivation(msg)
+//@ func (a *Agent).handleDeactivation(msg)
 //@   props C19
 //@   requires agentInv(a) && msg != nil && msg.PID != nil
 //@   modifies mapof(a.activated), log, loglen
@@ -424,7 +453,7 @@ package cluster
 //@   ensures[C19.on-deactivation.actor-poisoned-and-event] loglen == entry(loglen) + 2 && isev(log[entry(loglen)], PoisonSent) && log[entry(loglen)].PoisonSent_e == a.cluster.engine && log[entry(loglen)].PoisonSent_pid == msg.PID &&
 //@        log[entry(loglen) + 1] == Broadcast(a.cluster.engine, DeactivationEvent{PID: msg.PID})
 
-//@ func (*Agent).handleActorTopology(msg)
+//@ func (a *Agent).handleActorTopology(msg)
 //@   props C19
 //@   requires agentInv(a) && msg != nil && forall(k, 0 <= k && k < len(msg.Actors) ==> msg.Actors[k] != nil && msg.Actors[k].PID != nil)
 //@   modifies mapof(a.activated)
@@ -442,7 +471,7 @@ package cluster
 
 // An activation request: spawned here only if the kind is registered on this
 // node, under exactly the requested kind and id.
-//@ func (*Agent).handleActivationRequest(msg)
+//@ func (a *Agent).handleActivationRequest(msg)
 //@   props C19
 //@   requires agentInv(a) && msg != nil && a.localKinds != nil
 //@   modifies heap except private, log, loglen, startPerm
@@ -454,7 +483,7 @@ package cluster
 
 //@ pred advertises(m, kind) := exists(j, 0 <= j && j < len(m.Kinds) && m.Kinds[j] == kind)
 
-//@ func (*Member).HasKind(kind)
+//@ func (m *Member).HasKind(kind)
 //@   props C19
 //@   requires m != nil
 //@   modifies
@@ -462,7 +491,7 @@ package cluster
 //@   loop 1
 //@     invariant rangeindex >= -1 && forall(j, 0 <= j && j <= rangeindex && j < len(m.Kinds) ==> m.Kinds[j] != kind)
 
-//@ func (*MemberSet).FilterByKind(kind)
+//@ func (s *MemberSet).FilterByKind(kind)
 //@   props C19
 //@   requires msInv(s)
 //@   modifies
@@ -481,7 +510,7 @@ package cluster
 // exactly one activation request for exactly (kind, id) goes to the selected
 // member (handled locally when that member is this node), and the resulting
 // PID is announced to the cluster and returned.
-//@ func (*Agent).activate(kind, config)
+//@ func (a *Agent).activate(kind, config)
 //@   props C19
 //@   requires agentInv(a) && a.localKinds != nil && a.cluster.engine != nil
 //@   modifies heap except private, mapof(a.cluster.engine.Registry.lookup), log, loglen, startPerm
@@ -495,7 +524,7 @@ package cluster
 //@   ghost at call bcast#1 before: assert[C19.activate.announces-the-new-pid] arg0 == a && istype(arg1, *Activation) && arg1.(*Activation) != nil && arg1.(*Activation).PID == activationResp.PID && !old(has(a.activated, kind + "/" + config.id))
 //@   ghost at return#4: assert[C19.activate.returns-the-activated-pid] result == activationResp.PID
 
-//@ func (*Agent).handleGetActive(c, msg)
+//@ func (a *Agent).handleGetActive(c, msg)
 //@   props C19
 //@   requires agentInv(a) && c != nil && engInv(c.engine)
 //@   modifies log, loglen
